@@ -24,6 +24,13 @@ def run(res, args):
     drv = corr.driver_exe()
     docs = wbgen.corpus_wbxml()
     inner = [x for n, x in docs if 'devinf' in n or 'ddf' in n] or [docs[0][1]]
+    # embedded documents of other languages too (any well-formed WBXML may sit in a <Data>), incl. a nested SyncML message
+    # (one small document per language family that names its language in its header: the embedded parse is not forced)
+    fam = {}
+    for n, x in docs:
+        if len(x) < 600 and len(x) > 4 and x[1] != 1:
+            fam.setdefault(n.split('-')[0], x)
+    inner = inner + list(fam.values())
     langs = [0] + [l['id'] for l in d['langs']]
     tg = wbgen.TableGen(d, rng)
 
